@@ -14,7 +14,7 @@ import warnings
 import numpy as np
 import pandas as pd
 
-from rv import probes
+from rv import probes, contracts
 from rv.gen import trees as G
 from rv.oracles import topo
 
@@ -44,7 +44,7 @@ ASSUMPTIONS = [
 ]
 REQUIRED = ["tree_form_checked", "table_form_checked", "file_form_checked", "idempotence_checked",
             "tap_sort_nodes_impl", "is_sorted_true", "is_sorted_on_inputs", "tree_root_not_at_0", "size_sweep_cases",
-            "read_options_by_position"]
+            "read_options_by_position", "sorted_results_edited_then_sorted_again"]
 FLOOR = {"quick": 1000, "thorough": 60000}
 SHARDS = {"quick": 8, "thorough": 16}
 
@@ -160,7 +160,45 @@ def _tree_form(ctx, case, spec):
         cols, again.ndata, spec["tag"], again.ndata["tag"], "sort_tree twice")
     ctx.count("idempotence_checked")
     if r:
-        ctx.violation(r[0], r[1], case)
+        return ctx.violation(r[0], r[1], case)
+    # the sorted result lives on: it is re-rooted without sorting, or a node of a copy of it is
+    # re-attached in place -- and what comes out of that is sorted again
+    n = len(out.id())
+    if n >= 3:
+        from swcgeom.core import redirect_tree
+
+        rng = np.random.default_rng(case["tseed"] + 29)
+        for how in ("reroot", "relink"):
+            if how == "reroot":
+                v = int(rng.integers(1, n))
+                inp = redirect_tree(out, v, sort=False)
+            else:
+                inp = out.copy()
+                pp = np.array(inp.pid())
+                k = int(rng.integers(1, n))
+                ch = {}
+                for c_, p_ in enumerate(pp):
+                    ch.setdefault(int(p_), []).append(c_)
+                sub, stack = set(), [k]
+                while stack:
+                    q = stack.pop()
+                    sub.add(q)
+                    stack.extend(ch.get(q, []))
+                cands = [j for j in range(n) if j not in sub and j != int(pp[k]) and j > k]
+                if not cands:
+                    continue
+                inp.node(k).pid = int(cands[int(rng.integers(0, len(cands)))])
+            ctx.count("sorted_results_edited_then_sorted_again")
+            cols_in = {k_: v_.copy() for k_, v_ in inp.ndata.items() if k_ not in ("id", "pid")}
+            res = sort_tree(inp)
+            what = f"sort_tree of a sorted tree after {how}"
+            r = _check_sorted_result(res.id(), res.pid(), what) or _columns_follow(
+                cols_in, res.ndata, inp.ndata["tag"], res.ndata["tag"], what)
+            if r:
+                return ctx.violation(r[0], r[1], case)
+            if _relation(inp.ndata["tag"], inp.pid()) != _relation(res.ndata["tag"], res.pid()):
+                return ctx.violation("parent-relation-changed",
+                                     f"{what}: parent relation differs under the tag bijection", case)
 
 
 def _make_table(spec, case):
@@ -339,6 +377,7 @@ def run(ctx):
     from swcgeom.core.swc_utils import normalizer
     from swcgeom.core import tree_utils
 
+    contracts.install()
     tap = probes.CallTap({"sort_nodes_impl": normalizer.sort_nodes_impl,
                           "_sort_tree": tree_utils._sort_tree,
                           "sort_nodes_": normalizer.sort_nodes_})
@@ -388,6 +427,7 @@ def run(ctx):
                 ctx.violation("sort-raised", f"{type(e).__name__}: {e}", case)
     for k, v in tap.counts.items():
         ctx.count("tap_" + k, v)
+    contracts.report(ctx, "C05")
 
 
 def replay(ctx, case):
